@@ -698,6 +698,31 @@ Definition channel_users_g (w : world) (snap : nat) : res (list nat) :=
   l <- sl_get (w_heap w) (hc_users c) ;;
   Ok (filter_some (List.map (lookup_user_h w) l)).
 
+(* Channel.Trusted(c) / Channel.Admins(c): the tracked users of the (snapshot's) UserList whose
+   permissions in the channel named by the snapshot pass the test; again the tracked *User *)
+Definition perms_trusted (p : perms) : bool := p_owner p || p_admin p || p_op p || p_halfop p || p_voice p.
+Definition perms_admin (p : perms) : bool := p_owner p || p_admin p || p_op p.
+Fixpoint filter_users_by (h : heap) (test : perms -> bool) (chname : str) (l : list nat) : res (list nat) :=
+  match l with
+  | [] => Ok []
+  | uid :: r =>
+      u <- get_user h uid ;;
+      match hu_perms u with
+      | None => Panic
+      | Some p =>
+          m <- get_perms h p ;;
+          rest <- filter_users_by h test chname r ;;
+          Ok (match alookup (fold chname) m with
+              | Some pv => if test pv then uid :: rest else rest
+              | None => rest
+              end)
+      end
+  end.
+Definition channel_filtered_g (test : perms -> bool) (w : world) (snap : nat) : res (list nat) :=
+  c <- get_chan (w_heap w) snap ;;
+  l <- sl_get (w_heap w) (hc_users c) ;;
+  filter_users_by (w_heap w) test (hc_name c) (filter_some (List.map (lookup_user_h w) l)).
+
 (* the same getters after notes/proposed-fixes/member-getter-live-object.diff: one Copy per
    element, under the lock (not the current code; used by suite heap.members.copied) *)
 Definition user_channels_copied_g (w : world) (snap : nat) : res (heap * list nat) :=
@@ -708,6 +733,9 @@ Definition channel_users_copied_g (w : world) (snap : nat) : res (heap * list na
   c <- get_chan (w_heap w) snap ;;
   l <- sl_get (w_heap w) (hc_users c) ;;
   copy_all user_copy (w_heap w) (filter_some (List.map (lookup_user_h w) l)).
+
+Definition channel_filtered_copied_g (test : perms -> bool) (w : world) (snap : nat) : res (heap * list nat) :=
+  l <- channel_filtered_g test w snap ;; copy_all user_copy (w_heap w) l.
 
 (* ---------- deep values ---------- *)
 
